@@ -101,6 +101,9 @@ enum iauth_xquery_mode {
 
 DECLARE_BITSET(iauth_xquery_modes, IAUTH_XQUERY_NUM_MODES);
 
+/** Number of service table slots that the per-client masks can track. */
+#define IAUTH_XQUERY_MAX_SERVICES 32u
+
 struct iauth_xquery_client {
     /** Pointer to #iauth_xquery. */
     void *key;
@@ -625,9 +628,20 @@ static void iauth_xquery_config_service(const char *name, const char *type)
             }
         }
 
-        /* If there are no empty slots, append it. */
-        if (ii == iauth_xquery_services.used)
+        /* If there are no empty slots, append it -- unless the
+         * per-client service masks have no bit left for it.
+         */
+        if (ii == iauth_xquery_services.used) {
+            if (ii >= IAUTH_XQUERY_MAX_SERVICES) {
+                log_message(iauth_xquery_log, LOG_ERROR,
+                    "Too many XQUERY services (at most %u); ignoring %s",
+                    IAUTH_XQUERY_MAX_SERVICES, name);
+                stats.n_srv_frees++;
+                xfree(srv);
+                return;
+            }
             iauth_xquery_services_append(&iauth_xquery_services, srv);
+        }
     }
 
     /* Look up the type of the service. */
